@@ -128,8 +128,22 @@ def expected_values(sc: dict, ref: Ref, load_set) -> dict[int, Value]:
     return ref.evaluate(main_context(sc), loaded=loaded, roots=roots)
 
 
-def intrinsic_failures(sc: dict) -> set[int]:
-    return {int(k) for k, v in (sc.get('fail') or {}).items() if v}
+def intrinsic_failures(sc: dict, out=None) -> set[int]:
+    """Nodes that fail by themselves.  Planned 'raise' faults fire whenever the
+    node executes; deaths are taken from what actually fired (a kill before the
+    result was queued), not from the plan."""
+    fails = {int(k) for k, v in (sc.get('fail') or {}).items() if v == 'raise'}
+    if out is None:
+        fails |= {int(k) for k, v in (sc.get('fail') or {}).items() if v == 'die'}
+        return fails
+    for e in out.events:
+        if e[0] == 'kill' and e[4] is not None and e[3] in ('boot', 'pre', 'run', 'save'):
+            fails.add(e[4])
+        elif e[0] == 'fault' and e[1] == 'die':
+            fails.add(e[2])
+        elif e[0] == 'pexc':
+            pass
+    return fails
 
 
 # ---------------------------------------------------------------- C01
@@ -478,7 +492,9 @@ def check_C10(sc: dict, out, facts: Facts) -> list[dict]:
     ref = facts.ref
     vs = []
     execute, load = expected_plan(sc, ref)
-    intrinsic = intrinsic_failures(sc) & set(execute)
+    planned_raise = {int(k) for k, v in (sc.get('fail') or {}).items() if v == 'raise'}
+    intrinsic = (intrinsic_failures(sc, out) - planned_raise) & (set(execute) | set(load))
+    intrinsic |= planned_raise & set(execute)
     failed = ref.failing(execute, intrinsic)
     cof = sc.get('cof', True)
     if out.kind == 'abort':
